@@ -37,7 +37,7 @@ def check(pid, tier, seed):
 def replay(pid, path):
     import json
     payload = json.load(open(path))
-    if payload.get("kind") in ("trace", "order", "bypass", "allocroots"):
+    if payload.get("kind") in ("trace", "order", "bypass", "allocroots", "recount"):
         import p_visit_ob
         return p_visit_ob.replay(pid, payload, path)
     return p_kani.replay(pid, path)
